@@ -43,6 +43,13 @@ def at_least_one_winner(ctx, evs, label):
 def run(ctx):
     q = ctx.quick
     ctx.mc('bootstrap', 'Bootstrap', 'MC_Bootstrap.cfg', timeout=600)
+    # the same actions without a bound on leader changes / repetitions and with freely chosen id proposals:
+    # an inductive invariant implying every clause is discharged symbolically (any number of steps)
+    ctx.apalache('bootstrap', 'BootstrapInd', 'Init', 'IndInv', 0)
+    ctx.apalache('bootstrap', 'BootstrapInd', 'IndInv', 'IndInv', 1)
+    ctx.apalache('bootstrap', 'BootstrapInd', 'IndInv', 'Props', 0)
+    ctx.apalache('bootstrap', 'BootstrapInd', 'IndInv', 'LosersChangeNothingAct', 1)
+    ctx.apalache('bootstrap', 'BootstrapInd', 'IndInv', 'ClusterIdStableAct', 1)
     seeds = [ctx.seed] if q else [ctx.seed + k for k in range(3)]
     for sd in seeds:
         behs = ctx.simulate('bootstrap', 'Bootstrap', 'Sim_Bootstrap.cfg', num=30 if q else 120, depth=14, seed=sd)
@@ -60,7 +67,7 @@ def run(ctx):
     bad, evs = ctx.monitor_all('bootstrap', 'Mon_Bootstrap', 'Mon_Bootstrap.cfg', tr2, 'clusterid')
     handle(ctx, bad, evs, 'clusterid')
     return ctx.finish(rule='exhaustive TLC of Bootstrap.tla (4 requests incl. a malformed one, repeated, 2 leader changes; 3 members racing '
-                           'for the cluster id); TLC -simulate behaviours replayed on a fresh real server each, Bootstrap handlers parked '
+                           'for the cluster id); BootstrapInd.tla: inductive invariant discharged with Apalache (unbounded steps); TLC -simulate behaviours replayed on a fresh real server each, Bootstrap handlers parked '
                            'at their etcd transaction, leader changes by re-election; all 6 transaction orders of 3 members running the '
                            'real initOrGetClusterID, then again after "restart"; Mon_Bootstrap.tla decides')
 
